@@ -280,12 +280,11 @@ Proof. intros H. rewrite firstn_app. replace (n - length l1)%nat with 0%nat by l
 
 Lemma receive_valid pf o (Ho : all_bytes o) m W' c k seq :
   valid_msg pf m ->
-  ~ (c <> 0%nat /\ sm_fds m = [] /\ flat_map snd (firstn (c - length (sm_bytes m)) W') <> []) ->
   exists k', receive_message pf o seq (split_state c (tag m ++ W') k) =
     (split_state (c - length (sm_bytes m)) W' k',
      Ok {| m_bytes := sm_bytes m; m_fds := sm_fds m; m_seq := seq |}).
 Proof.
-  intros Hv Hk. pose proof (valid_nonempty pf m Hv) as Hlen.
+  intros Hv. pose proof (valid_nonempty pf m Hv) as Hlen.
   destruct Hv as (f & u & Hf & Htot & Hmax & Hpf & Hu).
   apply frame_parse in Hf. destruct Hf as (ph & Hpp & Hbig & Hhl & Htl & _).
   set (T := tag m) in *. set (H := firstn 16 T). set (R := skipn 16 T).
@@ -319,7 +318,8 @@ Proof.
   - (* nothing was read ahead: the descriptors arrive with the first byte *)
     apply Nat.eqb_eq in Ec. subst c. cbn [skipn]. unfold H, T. rewrite (tag_fds_firstn m 16 Hne). rewrite Hslice.
     exists k2. reflexivity.
-  - apply Nat.eqb_neq in Ec. rewrite (nofds_flat (skipn c H)).
+  - (* the first byte was read ahead: its descriptors are the first ones in the buffer, whatever follows them *)
+    apply Nat.eqb_neq in Ec. rewrite (nofds_flat (skipn c H)).
     2:{ unfold H. rewrite skipn_firstn_comm. apply nofds_firstn, tag_skipn_nofds. lia. }
     destruct (sm_fds m ++ LR) as [|a AF] eqn:EAF.
     + apply app_eq_nil in EAF. destruct EAF as [EF EL]. rewrite EF, Hslice.
@@ -328,31 +328,13 @@ Proof.
       fold (optN u). rewrite Hu.
       replace (lenN (sm_fds m) <? lenN (@nil fd)) with false by (unfold lenN; cbn [length]; lia).
       replace (lenN (sm_fds m) - lenN (@nil fd)) with (lenN (sm_fds m)) by (unfold lenN; cbn [length]; lia).
-      destruct (lenN (sm_fds m) =? 0) eqn:E0.
-      * exfalso. apply Hk. assert (EF : sm_fds m = []) by (destruct (sm_fds m); [reflexivity | unfold lenN in E0; cbn in E0; lia]).
-        repeat split; [lia | assumption |]. fold LR. rewrite EF in EAF. cbn in EAF. now rewrite EAF.
-      * replace (lenN (sm_fds m ++ LR) <? lenN (sm_fds m)) with false by (rewrite lenN_app; lia).
-        unfold takeN, dropN, lenN. rewrite Nat2N.id.
-        rewrite firstn_app, skipn_app.
-        rewrite (firstn_short (length (sm_fds m)) (sm_fds m)), (skipn_short (length (sm_fds m)) (sm_fds m)) by lia.
-        replace (length (sm_fds m) - length (sm_fds m))%nat with 0%nat by lia. cbn [firstn skipn app].
-        rewrite !app_nil_r. exists k2. reflexivity.
+      replace (lenN (sm_fds m ++ LR) <? lenN (sm_fds m)) with false by (rewrite lenN_app; lia).
+      unfold takeN, dropN, lenN. rewrite Nat2N.id.
+      rewrite firstn_app, skipn_app.
+      rewrite (firstn_short (length (sm_fds m)) (sm_fds m)), (skipn_short (length (sm_fds m)) (sm_fds m)) by lia.
+      replace (length (sm_fds m) - length (sm_fds m))%nat with 0%nat by lia. cbn [firstn skipn app].
+      rewrite !app_nil_r. exists k2. reflexivity.
 Qed.
-
-(* ------------------------------------------------------------------ the known class, seen on the tagged stream *)
-Lemma leftover_fds_wire pf ms : Forall (valid_msg pf) ms ->
-  forall c, leftover_fds ms c = flat_map snd (firstn c (wire ms)).
-Proof.
-  induction 1 as [|m r Hm _ IH]; intros c; [now destruct c|].
-  cbn [leftover_fds wire flat_map]. fold (wire r).
-  pose proof (valid_nonempty pf m Hm) as Hl.
-  assert (Hne : sm_bytes m <> []) by (destruct (sm_bytes m); [cbn in Hl; lia | discriminate]).
-  rewrite firstn_app, flat_map_app, tag_fds_firstn, tag_length, <- IH by assumption.
-  destruct c; [cbn; now destruct r | reflexivity].
-Qed.
-
-Lemma is_nil_true {A} (l : list A) : is_nil l = true <-> l = [].
-Proof. destruct l; cbn; split; congruence. Qed.
 
 (* end of the stream *)
 Lemma receive_eof pf o (Ho : all_bytes o) c k seq :
@@ -366,25 +348,15 @@ Proof.
 Qed.
 
 Lemma reader_frames pf o (Ho : all_bytes o) : forall ms, Forall (valid_msg pf) ms ->
-  forall fuel c k n, (length ms < fuel)%nat -> known_c14 ms c = false ->
+  forall fuel c k n, (length ms < fuel)%nat ->
   exists k', reader pf o fuel n (split_state c (wire ms) k) = (number (n + 1) ms ++ [OErr EIo], split_state 0 [] k').
 Proof.
-  induction 1 as [|m r Hm Hr IH]; intros fuel c k n Hf Hk; (destruct fuel as [|fuel]; [cbn in Hf; lia|]).
+  induction 1 as [|m r Hm Hr IH]; intros fuel c k n Hf; (destruct fuel as [|fuel]; [cbn in Hf; lia|]).
   - cbn [reader wire flat_map]. destruct (receive_eof pf o Ho c k (n + 1)) as [k' ->]. now exists k'.
   - cbn [reader wire flat_map]. fold (wire r).
-    destruct (receive_valid pf o Ho m (wire r) c k (n + 1) Hm) as [k1 E1].
-    { intros (Hc & HF & HL). destruct c as [|c']; [congruence|]. cbn [known_c14] in Hk.
-      rewrite <- (leftover_fds_wire pf r Hr) in HL.
-      apply Bool.orb_false_iff in Hk. destruct Hk as [Hk _].
-      apply Bool.andb_false_iff in Hk. destruct Hk as [Hk|Hk].
-      - rewrite HF in Hk. discriminate.
-      - apply Bool.negb_false_iff, is_nil_true in Hk. congruence. }
-    rewrite E1.
-    destruct (IH fuel (c - length (sm_bytes m))%nat k1 (n + 1)) as [k' E2].
-    + cbn [length] in Hf. lia.
-    + destruct c as [|c']; [now destruct r|]. cbn [known_c14] in Hk.
-      apply Bool.orb_false_iff in Hk. apply Hk.
-    + rewrite E2. exists k'. reflexivity.
+    destruct (receive_valid pf o Ho m (wire r) c k (n + 1) Hm) as [k1 E1]. rewrite E1.
+    destruct (IH fuel (c - length (sm_bytes m))%nat k1 (n + 1)) as [k' E2]; [cbn [length] in Hf; lia|].
+    rewrite E2. exists k'. reflexivity.
 Qed.
 
 Lemma wire_length pf ms : Forall (valid_msg pf) ms -> (length ms <= length (wire ms))%nat.
@@ -394,49 +366,35 @@ Proof.
 Qed.
 
 (* ------------------------------------------------------------------ main statements *)
-Theorem frames_partial : forall (pf : parse_fields) (ms : list smsg) (cut : nat) (k : nat -> N),
-  Forall (valid_msg pf) ms -> ~ Known_C14 ms cut ->
+Theorem frames : forall (pf : parse_fields) (ms : list smsg) (cut : nat) (k : nat -> N),
+  Forall (valid_msg pf) ms ->
   fst (run_reader pf (bytes_oracle k) (wire ms) cut) = expected ms.
 Proof.
-  intros pf ms cut k Hv Hk. unfold run_reader, expected, Known_C14 in *.
+  intros pf ms cut k Hv. unfold run_reader, expected.
   destruct (reader_frames pf _ (all_bytes_oracle k) ms Hv (S (length (wire ms))) cut 0%nat 0) as [k' E].
   - pose proof (wire_length pf ms Hv). lia.
-  - now destruct (known_c14 ms cut).
   - now rewrite E.
-Qed.
-
-(* without handshake leftovers nothing is excluded *)
-Lemma known_cut0 ms : known_c14 ms 0 = false.
-Proof. now destruct ms. Qed.
-
-Theorem frames_no_leftover : forall (pf : parse_fields) (ms : list smsg) (k : nat -> N),
-  Forall (valid_msg pf) ms -> fst (run_reader pf (bytes_oracle k) (wire ms) 0) = expected ms.
-Proof.
-  intros pf ms k Hv. apply frames_partial; [assumption|]. unfold Known_C14. now rewrite known_cut0.
-Qed.
-
-(* messages without descriptors: nothing is excluded either *)
-Lemma known_nofd ms cut : Forall (fun m => sm_fds m = []) ms -> known_c14 ms cut = false.
-Proof.
-  intros H. revert cut. induction H as [|m r Hm Hr IH]; intros cut; [reflexivity|].
-  cbn [known_c14]. destruct cut as [|c]; [reflexivity|]. rewrite IH, Bool.orb_false_r.
-  assert (E : forall c', leftover_fds r c' = []).
-  { clear IH. induction Hr as [|m' r' Hm' _ IH']; intros c'; [reflexivity|]. cbn. destruct c'; [reflexivity|].
-    now rewrite Hm', IH'. }
-  now rewrite E, Bool.andb_false_r.
 Qed.
 
 (* the whole stream is consumed and the reader is left with empty buffers *)
 Theorem frames_state : forall (pf : parse_fields) (ms : list smsg) (cut : nat) (k : nat -> N),
-  Forall (valid_msg pf) ms -> ~ Known_C14 ms cut ->
+  Forall (valid_msg pf) ms ->
   let st := snd (run_reader pf (bytes_oracle k) (wire ms) cut) in
   arb st = [] /\ arfds st = [] /\ strm st = [].
 Proof.
-  intros pf ms cut k Hv Hk. unfold run_reader, Known_C14 in *.
+  intros pf ms cut k Hv. unfold run_reader.
   destruct (reader_frames pf _ (all_bytes_oracle k) ms Hv (S (length (wire ms))) cut 0%nat 0) as [k' E].
   - pose proof (wire_length pf ms Hv). lia.
-  - now destruct (known_c14 ms cut).
   - rewrite E. cbn. auto.
+Qed.
+
+(* the reader never panics, whatever the peer sends and however the stream is split (any oracle, any field parser
+   that does not panic itself): the only panic site of the pinned tree, drain(..num_pending), is gone *)
+Lemma read_to_no_panic o : forall fuel target buf fds st p, snd (read_to o fuel target buf fds st) <> Panic p.
+Proof.
+  induction fuel as [|fuel IH]; intros target buf fds st p; cbn [read_to]; destruct (target <=? lenN buf); try (cbn; congruence).
+  unfold recvmsg. destruct (o (calls st)) as [k| |]; try (cbn; congruence).
+  destruct (map fst (firstn _ (strm st))) as [|x xs]; [cbn; congruence | apply IH].
 Qed.
 
 (* ------------------------------------------------------------------ the size limit *)
@@ -456,6 +414,43 @@ Proof.
     assert (Hh : hdr = firstn 16 (arb st)) by congruence.
     rewrite Hst, Hh. unfold set_arb. cbn [arb arfds strm]. unfold lenN, MIN_MESSAGE_SIZE in E.
     repeat split; rewrite ?firstn_length, ?skipn_length; try reflexivity; lia.
+Qed.
+
+(* with the repair the reader has no panic site left: whatever the peer sends, however the stream is split *)
+Lemma parse_primary_no_panic hdr p : hdr <> [] -> parse_primary hdr <> Panic p.
+Proof.
+  unfold parse_primary. destruct hdr as [|e rest]; [congruence|]. intros _.
+  destruct (beq e "l"%byte); [|destruct (beq e "B"%byte); [|discriminate]];
+    (destruct rest as [|ty [|fl [|ver tl]]]; try discriminate;
+     repeat (match goal with |- (if ?c then _ else _) <> _ => destruct c end; try discriminate)).
+Qed.
+
+Theorem receive_no_panic : forall (pf : parse_fields) (o : oracle) (seq : N) (st : rstate) (p : panic),
+  (forall big b q, pf big b <> Panic q) -> snd (receive_message pf o seq st) <> Panic p.
+Proof.
+  intros pf o seq st p Hpf. unfold receive_message.
+  destruct (phase1 o st) as [st1 [[hdr fds1]|e|q]] eqn:E1; cbn [snd]; try discriminate.
+  - apply phase1_consumes in E1. destruct E1 as [Hl _].
+    destruct (parse_primary hdr) as [ph|e|q] eqn:Ep; cbn [snd]; try discriminate.
+    + destruct (MAX_MESSAGE_SIZE <? total_len ph); cbn [snd]; [discriminate|].
+      destruct (phase2 o (total_len ph) hdr fds1 st1) as [st3 [[bytes fds]|e|q]] eqn:E2; cbn [snd]; try discriminate.
+      * unfold fds_block, from_raw_parts.
+        pose proof (Hpf (ph_big ph) (slice PRIMARY_HEADER_SIZE (header_len ph) bytes)) as Hq.
+        destruct (arfds st3) as [|a af].
+        -- cbn [snd]. destruct (pf (ph_big ph) (slice PRIMARY_HEADER_SIZE (header_len ph) bytes)); try discriminate.
+           intros H. inversion H. subst. now apply (Hq p).
+        -- destruct (pf (ph_big ph) (slice PRIMARY_HEADER_SIZE (header_len ph) bytes)) as [u|e|q]; cbn [snd]; try discriminate.
+           ++ destruct (match u with Some n => n | None => 0 end <? lenN fds); cbn [snd]; [discriminate|].
+              destruct (lenN (a :: af) <? match u with Some n => n | None => 0 end - lenN fds); cbn [snd]; discriminate.
+           ++ intros H. inversion H. subst. now apply (Hq p).
+      * intros H. inversion H; subst q. unfold phase2 in E2.
+        match type of E2 with read_to ?a ?b ?c ?d ?e ?f = _ => pose proof (read_to_no_panic a b c d e f p) as Hn end.
+        rewrite E2 in Hn. now apply Hn.
+    + intros H. inversion H; subst q. apply (parse_primary_no_panic hdr p); [|assumption].
+      destruct hdr; [discriminate | congruence].
+  - intros H. inversion H; subst q. unfold phase1 in E1. destruct (lenN (arb st) <? MIN_MESSAGE_SIZE); [|discriminate].
+    match type of E1 with read_to ?a ?b ?c ?d ?e ?f = _ => pose proof (read_to_no_panic a b c d e f p) as Hn end.
+    rewrite E1 in Hn. now apply Hn.
 Qed.
 
 Theorem limit : forall (pf : parse_fields) (o : oracle) (seq : N) (st st1 : rstate) (hdr : bytes) (f : list fd) (ph : phdr),
@@ -502,8 +497,8 @@ Proof.
   exists f, u. repeat split; try assumption; lia.
 Qed.
 
-(* ------------------------------------------------------------------ the finding: descriptors read ahead during
-   the handshake, first buffered message has none  =>  Error::MissingParameter, and the stream is dead *)
+(* ------------------------------------------------------------------ the former finding (fixed by e5b20c34):
+   descriptors read ahead during the handshake while the first buffered message has none *)
 Definition hx (s : string) : bytes := match bytes_of_hex (B s) with Some b => b | None => [] end.
 
 (* a 16-byte message (no header fields, empty body) and a 24-byte one whose only field is UNIX_FDS = 1 *)
@@ -516,41 +511,26 @@ Proof. apply valid_msgb_ok. vm_compute. reflexivity. Qed.
 Lemma w_fd_valid h : valid_msg std_fields (w_fd h).
 Proof. apply valid_msgb_ok. vm_compute. reflexivity. Qed.
 
-Theorem leftover_fd_refuted : exists (ms : list smsg) (cut : nat) (k : nat -> N),
-  Forall (valid_msg std_fields) ms /\ Known_C14 ms cut /\
-  fst (run_reader std_fields (bytes_oracle k) (wire ms) cut) = [OErr EMissing] /\
-  fst (run_reader std_fields (bytes_oracle k) (wire ms) cut) <> expected ms.
+Example former_witness :
+  Forall (valid_msg std_fields) [w_plain; w_fd 7] /\
+  fst (run_reader std_fields (bytes_oracle (fun _ => 5)) (wire [w_plain; w_fd 7]) 17) = expected [w_plain; w_fd 7].
 Proof.
-  exists [w_plain; w_fd 7], 17%nat, (fun _ => 5). split; [|split; [|split]].
-  - repeat constructor; [apply w_plain_valid | apply w_fd_valid].
-  - vm_compute. reflexivity.
-  - vm_compute. reflexivity.
-  - vm_compute. discriminate.
+  split; [repeat constructor; [apply w_plain_valid | apply w_fd_valid] | vm_compute; reflexivity].
 Qed.
-
-Theorem full_statement_refuted : ~ C14_full_statement.
-Proof.
-  intros H. destruct leftover_fd_refuted as (ms & cut & k & Hv & _ & _ & Hne).
-  apply Hne, H, Hv.
-Qed.
-
-(* in the known class the reader stops at the first buffered message without descriptors:
-   messages before it are delivered, it and everything after it are lost *)
 
 (* ------------------------------------------------------------------ non-vacuity *)
 (* three messages, the handshake has read 20 bytes (all of the first and 4 of the second), reads of 3, 1, 7, ... bytes *)
 Example frames_instance :
   let ms := [w_fd 7; w_plain; w_fd 9] in
   let k := fun c : nat => match c with 0%nat => 3 | 1%nat => 1 | 2%nat => 7 | _ => N.of_nat c end in
-  Forall (valid_msg std_fields) ms /\ ~ Known_C14 ms 30 /\
+  Forall (valid_msg std_fields) ms /\
   fst (run_reader std_fields (bytes_oracle k) (wire ms) 30) = expected ms /\
   expected ms = [OMsg {| m_bytes := sm_bytes (w_fd 7); m_fds := [7]; m_seq := 1 |};
                  OMsg {| m_bytes := sm_bytes w_plain; m_fds := []; m_seq := 2 |};
                  OMsg {| m_bytes := sm_bytes (w_fd 9); m_fds := [9]; m_seq := 3 |}; OErr EIo].
 Proof.
-  cbv zeta. split; [|split; [|split]].
+  cbv zeta. split; [|split].
   - repeat constructor; [apply w_fd_valid | apply w_plain_valid | apply w_fd_valid].
-  - unfold Known_C14. vm_compute. discriminate.
   - vm_compute. reflexivity.
   - vm_compute. reflexivity.
 Qed.
